@@ -67,17 +67,52 @@ let () =
         Buffer.add_string b (if !anybad then " P=MODEL-LEDGER-BAD" else " P=ok");
         print_endline (Buffer.contents b)
       | "trace" :: caseno :: hs :: rest ->
-        let rec evs acc = function
+        (* multi-object trace: project onto each object (disjoint counters) and replay each projection on Conc.validate *)
+        let rec toks acc = function
           | [] | ";" :: _ -> List.rev acc
-          | tok :: tl when String.length tok > 0 && tok.[0] = 'L' -> evs acc tl   (* plain load: no event of the model *)
-          | tok :: tl -> evs (conc_ev tok :: acc) tl in
-        let events = evs [] rest in
-        let hsl = List.map n (split ',' hs) in
-        (match validate hsl events with
-         | Inl i -> Printf.printf "trace %s REJECTED@%d\n" caseno (int_of_nat i)
-         | Inr (((rc, d), b), q) ->
-           Printf.printf "trace %s accepted events=%d rc=%d destroyed=%d bad=%d quiescent=%d\n" caseno (List.length events)
-             (int_of_nat rc) (int_of_nat d) (if b then 1 else 0) (if q then 1 else 0))
+          | tok :: tl -> toks (tok :: acc) tl in
+        let tl = List.map (fun tok -> split ',' tok) (toks [] rest) in
+        let ios s = try int_of_string s with _ -> -1 in
+        let nthreads = List.length (split ',' hs) in
+        let nobj = List.fold_left (fun m f -> match f with
+            | "K" :: _ :: _ :: nw :: _ -> max m (ios nw + 1)
+            | _ -> m) 1 tl in
+        let impossible = EvDelete (nat_of_int 999) in   (* an action the model does not have: never enabled *)
+        let project o =
+          List.concat (List.map (fun f -> match f with
+            | ["CS"; t; o'] when ios o' = o -> [EvCopyStart (n t)]
+            | ["A"; t; old; o'] when ios o' = o -> [EvFetchAdd (n t, n old)]
+            | ["S"; t; old; o'] when ios o' = o -> [EvFetchSub (n t, n old)]
+            | ["D"; t; o'] when ios o' = o -> [EvDelete (n t)]
+            | ["G"; t; u; o'] when ios o' = o -> [EvGive (n t, n u)]
+            | ["U"; t; o'] when ios o' = o -> [EvUse (n t)]
+            | ["K"; t; orig; _] when ios orig = o -> [EvCloneRead (n t)]
+            | ["K"; _; _; _] -> []
+            | "L" :: _ -> []                                   (* plain load: no event of the model *)
+            | [_; _; _; o'] when ios o' = o || ios o' < 0 -> [impossible]   (* store / unknown RMW / unknown address *)
+            | [_; _; o'] when ios o' = o -> [impossible]
+            | _ -> []) tl) in
+        let creator o = List.fold_left (fun c f -> match f with
+            | ["K"; t; _; nw] when ios nw = o -> ios t | _ -> c) (-1) tl in
+        let results = List.init nobj (fun o ->
+          if o = 0 then validate (List.map n (split ',' hs)) (project 0)
+          else begin
+            let c = creator o in
+            let init = List.init nthreads (fun t -> nat_of_int (if t = c then 1 else 0)) in
+            match project o with
+            | EvFetchAdd (t, old) :: evs when int_of_nat t = c && int_of_nat old = 0 -> validate init evs   (* the first handle *)
+            | _ -> Inl O
+          end) in
+        let rej = ref None in
+        List.iteri (fun o r -> match r with Inl i when !rej = None -> rej := Some (o, int_of_nat i) | _ -> ()) results;
+        (match !rej with
+         | Some (o, i) -> Printf.printf "trace %s REJECTED@object%d:event%d\n" caseno o i
+         | None ->
+           let get f = String.concat "." (List.map (fun r -> match r with Inr (((rc, d), b), q) -> f rc d b q | _ -> "?") results) in
+           let allb f = List.for_all (fun r -> match r with Inr (((_, _), b), q) -> f b q | _ -> false) results in
+           Printf.printf "trace %s accepted objects=%d events=%d rc=%s destroyed=%s bad=%d quiescent=%d\n" caseno nobj (List.length tl)
+             (get (fun rc _ _ _ -> string_of_int (int_of_nat rc))) (get (fun _ d _ _ -> string_of_int (int_of_nat d)))
+             (if allb (fun b _ -> not b) then 0 else 1) (if allb (fun _ q -> q) then 1 else 0))
       | _ -> print_endline "?"
     done
   with End_of_file -> ());
